@@ -6,7 +6,7 @@ import c13_impl as I, c13_gen as G, c13_search as S, c13_coq as Q, c13_scenarios
 
 ID = 'C13'
 LEVEL = 'proof'
-PROPS = ['Props/C13.v', 'Findings/C13.v']
+PROPS = ['Props/C13.v']
 TRUSTED = [
     'hand-written model coq/Model/C13Heap.v + C13Session.v of the modification paths of pony/orm/core.py (Attribute.__set__, update_reverse, Set.__set__, '
     'reverse_add/remove, SetInstance.add/remove, Entity.__init__/_delete_/set, update_simple/composite_index) with the undo closures as data; tied to /repo by '
@@ -28,9 +28,7 @@ RULE = ('histories = hand-minimised scenario histories (6 known-bad, 17 clean) +
         '3 schemas (populate a hub and its dependents, then mostly doomed modifications, commits, injected faults), each stopped at the first raising call '
         'that changes the snapshot; non-trivial = the history contains at least one raising modification; distinct = distinct canonical (schema, op list)')
 
-SITE_KEY = {'TSetReverse': 'collection-assign-as-reverse-call-not-undone', 'TRemFlag': 'reverse-remove-undo-reads-loop-variable',
-            'TDelNested': 'delete-nested-cascade-undo-order', 'TNewPk': 'failed-constructor-leaves-primary-key',
-            'TDelCreated': 'delete-refused-drops-pending-insert', 'TInconsistent': 'model-inconsistent-state'}
+SITE_KEY = {'TInconsistent': 'model-inconsistent-state'}
 
 
 class StopRunner(object):
